@@ -94,13 +94,17 @@ def uper_ident_bits(m, idval):
 
 # ------------------------------------------------------------------ bundles
 _shadow_n = [0]
+def module_opts(m):
+    """asn1c options of the module's bundle: OPTS + the module's own (-fwide-types); "base_opts" replaces OPTS (no -fcompound-names)"""
+    return tuple(m.get("base_opts", OPTS)) + tuple(m.get("opts", ()))
+
 def make_bundle(m):
     """Bundle of an ioc module + the per-bundle shadow file that exposes the (static) emitted table."""
     txt = genmod_ioc.module_text(m)
     tmp = os.path.join(build.CACHE, f"c18pre-{os.getpid()}-{threading.get_ident()}-{m['name']}")
     extra = []
     try:
-        rc, out = bundle.run_asn1c(build.build_asn1c(), txt, tmp, ["-R"] + list(OPTS))
+        rc, out = bundle.run_asn1c(build.build_asn1c(), txt, tmp, ["-R"] + list(module_opts(m)))
         sym = None
         if rc == 0 and os.path.exists(os.path.join(tmp, "Frame.c")):
             mm = re.search(r"asn_ioc_set_t (asn_IOS_\w+)\[\]", open(os.path.join(tmp, "Frame.c")).read())
@@ -117,7 +121,7 @@ def make_bundle(m):
                      "#define asn_DEF_Frame verif_shadow_DEF_Frame\n#include \"Frame.c\"\n"
                      f"const asn_ioc_set_t *verif_ioc_set = {sym};\n")
         extra = [shadow]
-    b = bundle.Bundle(m["name"], txt, genmod_ioc.type_names(m), driver_sources=DS + tuple(extra), opts=OPTS)
+    b = bundle.Bundle(m["name"], txt, genmod_ioc.type_names(m), driver_sources=DS + tuple(extra), opts=module_opts(m))
     b.shadow = shadow
     return b
 
@@ -290,6 +294,7 @@ class Run:
         if cls not in self.samples:
             self.samples[cls] = {"module": genmod_ioc.module_text(m) if isinstance(m, dict) else str(m), "type": "Frame", "op": line,
                                  "c_output": str(out)[:600], "failure": cls}
+            if isinstance(m, dict): self.samples[cls]["opts"] = list(module_opts(m))
             if extra: self.samples[cls].update(extra)
 
 def model_lines(ctx, lines):
@@ -339,9 +344,17 @@ def k_table_select(R, m, exe, want_complete=True):
         if r["id"] not in ids: ids.append(r["id"])
     unknown = []
     pool = [0, 1, -1, 5, 6, 11, 299, 301, 32766, 40000, 70000, -7] if ioc["idkind"] == "INTEGER" else [0, 1, 4, 5, 6, 11, 299, 301, 20000, 32766]
-    for u in pool + [i + 1 for i in ids] + [i - 1 for i in ids]:
+    # identifiers without a row; first the ones that differ from a row's identifier by a multiple of 256 / 65536 (same low octets)
+    # or only in the sign (two's complement neighbours of the INTEGER_t / long constants in the table)
+    near = []
+    for i in ids: near += [i - 256, i + 256]
+    if not m.get("all_unknown"): ctx.rng.shuffle(near)
+    far = []
+    for i in ids: far += [i - 65536, i + 65536, -i, ~i]
+    ctx.rng.shuffle(far)
+    for u in near + far[:6] + pool + [i + 1 for i in ids] + [i - 1 for i in ids]:
         if u not in ids and u not in unknown and (ioc["idkind"] == "INTEGER" or 0 <= u <= 32767): unknown.append(u)
-    unknown = unknown[:6]
+    unknown = unknown[:60 if m.get("all_unknown") else 12]
     if mem.get("selector") == "1":
         sel_lines = [f"@Frame select (seq (ident (int {i})))" for i in ids + unknown]
         sel_model = [f"c18sel {tbl_txt} {i}" for i in ids + unknown]
@@ -497,8 +510,8 @@ def check_module(R, m, exe, nvals, nmut, findings):
                     if syn in noskip_free: continue
                     if c01.skip_region(syn, gfind.features(env[rowj["name"]], env), collections.Counter()): continue
                     enc_lines.append(f"@Frame enc {syn} {fsx}"); enc_meta.append(("mismatch", syn, rowi["id"], rowj["name"], fsx))
-    for u in unknown[:3]:
-        for rowj in rows[:3]:
+    for u in unknown[:40 if m.get("all_unknown") else 4]:
+        for rowj in (rows[:1] if m.get("all_unknown") else rows[:3]):
             v, sx = min(rowvals[rowj["name"]], key=lambda x: len(x[1]))
             fsx = genmod_ioc.frame_sexp(m, u, rowj["name"], sx, genmod_ioc.extras_values(m, vg, 0), env)
             for syn in ("der", "uper", "cxer"):
@@ -780,7 +793,7 @@ def replay(ctx, path):
     r = json.load(open(path))
     ctx.lean()
     names = [n for n in re.findall(r"^\s*([A-Z][\w]*)\s*::=", r["module"], re.M) if n != "Frames"]
-    b = bundle.Bundle("replay", r["module"], names, driver_sources=DS, opts=OPTS)
+    b = bundle.Bundle("replay", r["module"], names, driver_sources=DS, opts=tuple(r.get("opts") or OPTS))
     exe = b.build()
     rc, outs, err = ctx.run_lines(exe, [r["op"]])
     print("replay:", r["op"][:300], "=>", (outs[0] if outs else "")[:600], err[-1500:] if rc else "")
@@ -806,6 +819,21 @@ def run(ctx):
         nrows = [1, 2, 3, 5][i] if i < 4 else None
         mods.append(g.gen_module(f"M{i}", "clean", nrows=nrows, open_opt=(True if i in (1, 5) else None), untagged=(True if i in (2, 6) else None),
                                  open_ext=(True if i == 7 else None)))
+    # identifiers at the octet boundaries of the table cells' INTEGER_t / long constants, every row and every identifier without a
+    # row that differs from one by 256; native and -fwide-types (asn1c then takes 0..32767 only), with and without -fcompound-names
+    EDGE = [0, 1, 127, 128, 129, 255, 256, 257, 32767, 32768, 65535, 65536, -1, -127, -128, -129, -256, -32768, -32769]
+    EDGEW = [v for v in EDGE if 0 <= v <= 32767]
+    ge = genmod_ioc.IocGen(ctx.rng, max_depth=1)
+    edge_mods = [ge.gen_module("E0", "clean", ids=EDGE, idkind="INTEGER", prim_rows=True),
+                 ge.gen_module("E1", "clean", ids=EDGEW + [254, 130], idkind="INTEGER", opts=("-fwide-types",), prim_rows=True),
+                 ge.gen_module("E2", "clean", ids=[255, 0, 128, 32767, 127, 256], idkind="CINT-named", opts=("-fwide-types",)),
+                 ge.gen_module("E3", "clean", ids=[128, 255, 1, 129, 257], idkind="INTEGER", opts=("-fwide-types",), prim_rows=True)]
+    edge_mods[3]["base_opts"] = ("-no-gen-example",)
+    for em in edge_mods: em["all_unknown"] = True; em["light"] = True
+    mods += edge_mods
+    # the random modules under -fwide-types as well
+    for i in range(3 if ctx.quick else 12):
+        mods.append(g.gen_module(f"MW{i}", "clean", opts=("-fwide-types",), nrows=[2, 4, 6][i % 3]))
     # modules whose rows all have size-led specifics (the former F105-free sub-domain; kept for its row-type mix)
     gs = genmod_ioc.IocGen(ctx.rng, safe_rows=True)
     mods += [gs.gen_module(f"MS{i}", "clean") for i in range(4 if ctx.quick else 16)]
@@ -817,7 +845,9 @@ def run(ctx):
                     R.fail(f"clean-shape-rejected:{err[0]}", m, "build", err[1])
                     continue
                 built += 1
-                check_module(R, m, exe, nvals, nmut, findings)
+                if m.get("light"): check_module(R, m, exe, 2, 300 if ctx.quick else 1500, findings)
+                else: check_module(R, m, exe, nvals, nmut, findings)
+                if "-fwide-types" in m.get("opts", ()): R.stats["modules_wide_types"] += 1
                 ctx.log("module", m["name"], "rows", len(m["ioc"]["rows"]), dict(R.stats).get("mutated"), sum(R.known.values()), {k: round(v, 1) for k, v in R.times.items()})
             finally:
                 cleanup(b)
@@ -842,7 +872,8 @@ def run(ctx):
             nviol += 1
             rep = dict(s); rep["count_in_class"] = n
             ctx.violation(f"C18 fails on C ({cls}): {s['op'][:200]} -> {s['c_output'][:160]}", rep)
-    ctx.cov["rule"] = ("generated class/object-set modules (1..9 rows, INTEGER ids unconstrained/constrained, class field order, extensible sets, "
+    ctx.cov["rule"] = ("generated class/object-set modules (1..9 rows, INTEGER ids unconstrained/constrained, class field order, extensible sets, default options and -fwide-types; "
+                       "fixed identifier sets at the octet boundaries 0/1/127/128/129/255/256/257/32767/32768/65535/65536 and their negatives, unknown ids = row id +-256, "
                        "extra members, manual or automatic tags) x boundary-first row values x {DER,UPER,XER,CXER} round trip, BER/UPER framing oracles, "
                        "all row mismatches, unknown ids, truncations + bit flips; distinct = distinct (kind, syntax, module, input); non-trivial = reached "
                        "the selector / open type decoder (not a load or build error)")
